@@ -34,6 +34,10 @@ GEN = {
     'g_par': '\tcpu 320c30\n\tabsf\t*ar4++,r6\n||\tstf\tr6,*ar5++\n\tsti\tr5,*ar3\n||\tabsi\t*ar4++%,r1\n\taddf3\t*ar4++,r5,r7\n||\tstf\tr3,*ar5++\n',
     'g_sections': '\tcpu 8086\nsym\tequ 1\n\tsection a\nsym2\tequ 2\nloc:\tdw sym,sym2\n\tdw loc\n\tendsection\n\tdw sym\n',
     'g_cond': '\tcpu 6502\nflag\tequ 1\n\tif flag\nlab:\tlda #1\n\telse\nlab:\tlda #2\n\tendif\n\tjmp lab\n',
+    # constants ending in an escaped backslash or holding escaped quotes, in front of further operands / a comment
+    'g_escapes': '\tcpu z80\n\tdb "C:\\\\"\n\tdb \'\\\\\'\n\tdb "a\\"b"\n\tdb "x\\\\",1,"\\\\"\n\tdb "semi;colon",2\n\tdb \';\'\n\tld a,\'\\\\\'\n',
+    # every repetition construct nested in a body (the macro wrapper nests them once more)
+    'g_repeats': '\tcpu z80\n\tdb 1\n\tirpn 2,x,y,1,2,3,4\n\tdb x,y\n\tendm\n\tirpc c,"ab"\n\tdb \'c\'\n\tendm\n\trept 2\n\tirpn 1,q,5,6\n\tdb q\n\tendm\n\tendm\n\tirp z,7,8\n\tirpc d,"12"\n\tdb z,d\n\tendm\n\tendm\n\tdb 9\n',
 }
 
 
@@ -219,7 +223,7 @@ def subspaces(tier):
                 for ks in itertools.combinations(KINDS, r):
                     if 'opcase-up' in ks and 'opcase-low' in ks or 'ws-tab' in ks and 'ws-blanks' in ks or 'ws-inner-tab' in ks and 'ws-inner-tabblank' in ks or 'colon-add' in ks and 'colon-del' in ks:
                         continue
-                    if 'macro' in ks and not (macro_ok(txt) or t in ('g_rept_refs', 'g_par', 'g_cond')):
+                    if 'macro' in ks and not (macro_ok(txt) or t in ('g_rept_refs', 'g_par', 'g_cond', 'g_escapes', 'g_repeats')):
                         continue
                     if 'symcase' in ks and '-U' in corpus.flags(t) if t not in GEN else False:
                         continue
